@@ -32,6 +32,11 @@ func c07Same(got Object, want *big.Int) bool {
 		return big.NewInt(int64(g)).Cmp(want) == 0
 	case *BigInt:
 		return (*big.Int)(g).Cmp(want) == 0
+	case Bool: // bool is an int in Python: True & True is True
+		if g {
+			return want.Cmp(big.NewInt(1)) == 0
+		}
+		return want.Sign() == 0
 	}
 	return false
 }
@@ -70,3 +75,294 @@ func VerifC07IAdd() { c07Bin(IAdd, (*big.Int).Add, verifBound(80, 127)) }
 //verif:property C07
 //verif:expect called
 func VerifC07ISub() { c07Bin(ISub, (*big.Int).Sub, verifBound(80, 127)) }
+
+// ---- multiplication and division: integer encoding (nonlinear arithmetic) ----
+
+//verif:property C07
+//verif:encoding int
+//verif:expect called
+func VerifC07Mul() { c07Bin(Mul, (*big.Int).Mul, verifBound(80, 127)) }
+
+//verif:property C07
+//verif:encoding int
+//verif:expect called
+func VerifC07IMul() { c07Bin(IMul, (*big.Int).Mul, verifBound(80, 127)) }
+
+// c07DivModCheck: q, r are Python's floor quotient and remainder of a by b
+// iff a == q*b + r and r has the sign of b with |r| < |b|.
+func c07DivModCheck(q, r Object, av, bv *big.Int, checkQ, checkR bool) {
+	var qv, rv *big.Int
+	// recover both from whichever is present using the defining identity
+	if checkQ {
+		verifAssert(c07IsInt(q), "quotient is an integer object")
+		qv = c07Val(q)
+	}
+	if checkR {
+		verifAssert(c07IsInt(r), "remainder is an integer object")
+		rv = c07Val(r)
+	}
+	if checkQ && checkR {
+		t := new(big.Int).Mul(qv, bv)
+		t.Add(t, rv)
+		verifAssert(t.Cmp(av) == 0, "a == q*b + r")
+	}
+	if checkR {
+		if bv.Sign() > 0 {
+			verifAssert(rv.Sign() >= 0, "remainder non-negative for positive divisor")
+			verifAssert(rv.Cmp(bv) < 0, "remainder below divisor")
+		} else {
+			verifAssert(rv.Sign() <= 0, "remainder non-positive for negative divisor")
+			verifAssert(rv.Cmp(bv) > 0, "remainder above divisor")
+		}
+		if !checkQ {
+			// r ≡ a (mod b): (a - r) divisible by b  — stated as existence of the floor quotient
+			d := new(big.Int).Sub(av, rv)
+			m := new(big.Int).Rem(d, bv)
+			verifAssert(m.Sign() == 0, "a - r divisible by b")
+		}
+	}
+	if checkQ && !checkR {
+		// q = floor(a/b):  0 <= (a - q*b)/sign(b) < |b|
+		t := new(big.Int).Mul(qv, bv)
+		rem := new(big.Int).Sub(av, t)
+		if bv.Sign() > 0 {
+			verifAssert(rem.Sign() >= 0 && rem.Cmp(bv) < 0, "q is the floor quotient (b>0)")
+		} else {
+			verifAssert(rem.Sign() <= 0 && rem.Cmp(bv) > 0, "q is the floor quotient (b<0)")
+		}
+	}
+}
+
+func c07IsInt(o Object) bool {
+	switch o.(type) {
+	case Int, *BigInt:
+		return true
+	}
+	return false
+}
+
+func c07Val(o Object) *big.Int {
+	switch g := o.(type) {
+	case Int:
+		return big.NewInt(int64(g))
+	case *BigInt:
+		return new(big.Int).Set((*big.Int)(g))
+	}
+	return new(big.Int)
+}
+
+func c07Div(which int, bits int) {
+	a, av := c07Operand("a", bits, 3)
+	b, bv := c07Operand("b", bits, 3)
+	var q, r Object
+	var err error
+	switch which {
+	case 0:
+		q, err = FloorDiv(a, b)
+	case 1:
+		r, err = Mod(a, b)
+	case 2:
+		q, r, err = DivMod(a, b)
+	case 3:
+		q, err = IFloorDiv(a, b)
+	case 4:
+		r, err = IMod(a, b)
+	}
+	verifReach("called")
+	if bv.Sign() == 0 {
+		verifAssert(err != nil, "zero divisor raises")
+		if err != nil {
+			verifAssert(c07ErrIs(err, ZeroDivisionError), "zero divisor raises ZeroDivisionError")
+		}
+		return
+	}
+	verifAssert(err == nil, "no error")
+	c07DivModCheck(q, r, av, bv, q != nil, r != nil)
+	verifAssert(c07Unchanged(a, av), "left operand unchanged")
+	verifAssert(c07Unchanged(b, bv), "right operand unchanged")
+}
+
+func c07ErrIs(err error, t *Type) bool {
+	switch e := err.(type) {
+	case *Exception:
+		return e.Base == t
+	case ExceptionInfo:
+		if ex, ok := e.Value.(*Exception); ok {
+			return ex.Base == t
+		}
+	}
+	return false
+}
+
+//verif:property C07
+//verif:encoding int
+//verif:expect called
+func VerifC07FloorDiv() { c07Div(0, verifBound(64, 100)) }
+
+//verif:property C07
+//verif:encoding int
+//verif:expect called
+func VerifC07Mod() { c07Div(1, verifBound(64, 100)) }
+
+//verif:property C07
+//verif:encoding int
+//verif:expect called
+func VerifC07DivMod() { c07Div(2, verifBound(64, 100)) }
+
+//verif:property C07
+//verif:encoding int
+//verif:expect called
+func VerifC07IFloorDiv() { c07Div(3, verifBound(64, 100)) }
+
+//verif:property C07
+//verif:encoding int
+//verif:expect called
+func VerifC07IMod() { c07Div(4, verifBound(64, 100)) }
+
+// ---- bit operations and shifts: bit-vector encoding ----
+
+//verif:property C07
+//verif:expect called
+func VerifC07And() { c07Bin(And, (*big.Int).And, verifBound(80, 127)) }
+
+//verif:property C07
+//verif:expect called
+func VerifC07Or() { c07Bin(Or, (*big.Int).Or, verifBound(80, 127)) }
+
+//verif:property C07
+//verif:expect called
+func VerifC07Xor() { c07Bin(Xor, (*big.Int).Xor, verifBound(80, 127)) }
+
+func c07Shift(left bool, inplace bool, bits int) {
+	a, av := c07Operand("a", bits, 3)
+	b, bv := c07Operand("b", 70, 3)
+	// shift counts above 64 make results of unbounded size: outside the bound
+	verifAssume(bv.Cmp(big.NewInt(64)) <= 0)
+	var got Object
+	var err error
+	switch {
+	case left && !inplace:
+		got, err = Lshift(a, b)
+	case left && inplace:
+		got, err = ILshift(a, b)
+	case !left && !inplace:
+		got, err = Rshift(a, b)
+	default:
+		got, err = IRshift(a, b)
+	}
+	verifReach("called")
+	if bv.Sign() < 0 {
+		verifAssert(err != nil, "negative shift count raises")
+		if err != nil {
+			verifAssert(c07ErrIs(err, ValueError), "negative shift count raises ValueError")
+		}
+		return
+	}
+	verifAssert(err == nil, "no error")
+	n := uint(bv.Int64())
+	var want *big.Int
+	if left {
+		want = new(big.Int).Lsh(av, n)
+	} else {
+		want = new(big.Int).Rsh(av, n)
+	}
+	verifAssert(c07Same(got, want), "exact result")
+	verifAssert(c07Unchanged(a, av), "left operand unchanged")
+}
+
+//verif:property C07
+//verif:bigw 256
+//verif:expect called
+func VerifC07Lshift() { c07Shift(true, false, verifBound(80, 127)) }
+
+//verif:property C07
+//verif:bigw 256
+//verif:expect called
+func VerifC07ILshift() { c07Shift(true, true, verifBound(80, 127)) }
+
+//verif:property C07
+//verif:bigw 256
+//verif:expect called
+func VerifC07Rshift() { c07Shift(false, false, verifBound(80, 127)) }
+
+//verif:property C07
+//verif:bigw 256
+//verif:expect called
+func VerifC07IRshift() { c07Shift(false, true, verifBound(80, 127)) }
+
+// ---- unary ----
+
+func c07Un(op func(a Object) (Object, error), ref func(z, x *big.Int) *big.Int, bits int) {
+	a, av := c07Operand("a", bits, 3)
+	got, err := op(a)
+	verifReach("called")
+	verifAssert(err == nil, "no error")
+	want := ref(new(big.Int), av)
+	verifAssert(c07Same(got, want), "exact result")
+	verifAssert(c07Unchanged(a, av), "operand unchanged")
+}
+
+//verif:property C07
+//verif:expect called
+func VerifC07Neg() { c07Un(Neg, (*big.Int).Neg, verifBound(80, 127)) }
+
+//verif:property C07
+//verif:expect called
+func VerifC07Pos() { c07Un(Pos, (*big.Int).Set, verifBound(80, 127)) }
+
+//verif:property C07
+//verif:expect called
+func VerifC07Abs() { c07Un(Abs, (*big.Int).Abs, verifBound(80, 127)) }
+
+//verif:property C07
+//verif:expect called
+func VerifC07Invert() { c07Un(Invert, (*big.Int).Not, verifBound(80, 127)) }
+
+// ---- comparisons and truth ----
+
+func c07Cmp(op func(a, b Object) (Object, error), want func(c int) bool, bits int) {
+	a, av := c07Operand("a", bits, 3)
+	b, bv := c07Operand("b", bits, 3)
+	got, err := op(a, b)
+	verifReach("called")
+	verifAssert(err == nil, "no error")
+	g, ok := got.(Bool)
+	verifAssert(ok, "comparison returns a bool")
+	verifAssert(bool(g) == want(av.Cmp(bv)), "exact comparison")
+}
+
+//verif:property C07
+//verif:expect called
+func VerifC07Lt() { c07Cmp(Lt, func(c int) bool { return c < 0 }, verifBound(80, 127)) }
+
+//verif:property C07
+//verif:expect called
+func VerifC07Le() { c07Cmp(Le, func(c int) bool { return c <= 0 }, verifBound(80, 127)) }
+
+//verif:property C07
+//verif:expect called
+func VerifC07Gt() { c07Cmp(Gt, func(c int) bool { return c > 0 }, verifBound(80, 127)) }
+
+//verif:property C07
+//verif:expect called
+func VerifC07Ge() { c07Cmp(Ge, func(c int) bool { return c >= 0 }, verifBound(80, 127)) }
+
+//verif:property C07
+//verif:expect called
+func VerifC07Eq() { c07Cmp(Eq, func(c int) bool { return c == 0 }, verifBound(80, 127)) }
+
+//verif:property C07
+//verif:expect called
+func VerifC07Ne() { c07Cmp(Ne, func(c int) bool { return c != 0 }, verifBound(80, 127)) }
+
+//verif:property C07
+//verif:expect called
+func VerifC07Truth() {
+	a, av := c07Operand("a", verifBound(80, 127), 3)
+	got, err := MakeBool(a)
+	verifReach("called")
+	verifAssert(err == nil, "no error")
+	g, ok := got.(Bool)
+	verifAssert(ok, "truth value is a bool")
+	verifAssert(bool(g) == (av.Sign() != 0), "truth value is value != 0")
+}
